@@ -207,6 +207,41 @@ func genC10(r *Rng, e *Emitter, n int) {
 		e.tally("mode=unimodular")
 		emit(p[0], p[1], p[2])
 	}
+	// short ordinates on two grids: a and b on a coarse dyadic grid far out, c on a grid 2^s times
+	// finer near the origin, every ordinate with at most 24 significant bits (a float32 holds it), yet
+	// the differences need 30 bits and more and the triple is one lattice step off collinear
+	for i := 0; i < n/8+4; i++ {
+		sh := uint(8 + r.Intn(7))
+		bits := 16 + r.Intn(8)
+		if bits+int(sh) > 34 {
+			bits = 34 - int(sh)
+		}
+		ux, uy, vx, vy := r.unimodular(bits)
+		k := r.Int63n(int64(1) << sh)
+		vx, vy = vx+k*ux, vy+k*uy
+		if r.chance(1, 2) {
+			vx, vy = -vx, -vy
+		}
+		if r.chance(1, 2) {
+			ux, uy = -ux, -uy
+		}
+		mask := int64(1)<<sh - 1
+		hi := func() int64 { return (r.Int63n(int64(1)<<(23-sh)) - int64(1)<<(22-sh)) << sh }
+		cx, cy := hi()+((-vx)&mask), hi()+((-vy)&mask)
+		ax, ay := cx+vx, cy+vy // multiples of 2^sh
+		bx, by := ax+ux<<sh, ay+uy<<sh
+		if abs64(ax>>sh) >= 1<<24 || abs64(ay>>sh) >= 1<<24 || abs64(bx>>sh) >= 1<<24 || abs64(by>>sh) >= 1<<24 {
+			continue
+		}
+		g := math.Ldexp(1, -int(sh)-r.Intn(8))
+		a := geom.Coord{float64(ax) * g, float64(ay) * g}
+		b := geom.Coord{float64(bx) * g, float64(by) * g}
+		c := geom.Coord{float64(cx) * g, float64(cy) * g}
+		perms := [][3]geom.Coord{{a, b, c}, {b, c, a}, {c, a, b}, {b, a, c}, {a, c, b}, {c, b, a}}
+		p := perms[r.Intn(6)]
+		e.tally("mode=two-grid-unimodular")
+		emit(p[0], p[1], p[2])
+	}
 	for i := 0; i < n; i++ {
 		scale := r.Intn(5)
 		extra := r.Intn(3) // extra ordinates beyond X,Y are arbitrary
